@@ -1,5 +1,6 @@
 //! Independent f64 reference model. Written from the published definitions; shares no code
 //! and no constants with palette.
+pub mod cam16;
 pub mod diff;
 pub mod ok;
 pub mod space;
